@@ -82,11 +82,15 @@ namespace rkcommon {
           if (!l->threadShouldBeAlive)
             return;
 
+          // publish insideLoopBody before testing the flag: stop() clears the
+          // flag and then reads insideLoopBody, so either it sees us inside
+          // and waits, or we see its request and do not run the body
+          l->insideLoopBody = true;
           if (l->shouldBeRunning) {
-            l->insideLoopBody = true;
             fcn();
             l->insideLoopBody = false;
           } else {
+            l->insideLoopBody = false;
             std::unique_lock<std::mutex> lock(l->runningMutex);
             l->runningCond.wait(lock, [&] {
               return l->shouldBeRunning.load() ||
